@@ -11,14 +11,14 @@ ID = "C04"
 TITLE = "damaged stream -> intact prefix"
 LEVEL = "fault_enumeration"
 RULE = (
-    "for every generated stream (3-10 records over 1-3 descriptors incl. nested and grouped records, 300-6000 bytes) the "
+    "for every generated stream (3-10 records over 1-3 descriptors incl. nested and grouped records, 300-8000 bytes) the "
     "fault space is enumerated completely: (cut) EVERY byte offset 0..len of the raw stream read through a buffered "
     "BytesIO, a raw non-peekable reader returning short reads, and RecordReader(fileobj=); (gzcut) EVERY byte offset of "
     "the sync-flushed gzip form (built by the harness) and of the gzip file the library itself writes when flushed after every record, read through RecordReader(fileobj=); (wfault) EVERY write-call index of the writer's file "
     "object x {raise, short write + raise, silent short write + crash}, then reading what reached the file object; (wcont) "
     "EVERY frame whose write fails cleanly (the length-prefix call raises, nothing reaches the file) while the application "
     "carries on writing: the reader must yield an unmodified prefix of the records whose write() returned, at least up to the "
-    "first failure; and EVERY frame whose body write fails or is short after its length prefix was written while the "
+    "first failure; and EVERY frame whose body write fails (nothing of the body written) after its length prefix was written while the "
     "application carries on (the rest of the stream is then mis-framed): the reader may only yield the records written before "
     "the damage, never anything that was not written. "
     "Oracle: the observations of the yielded records equal those of the written records whose frames are completely "
@@ -364,7 +364,11 @@ def run_continue_after_fault(ctx, case, records, written, data, tee, frames):
         ctx.event("wcont_not_applicable_(writer_does_not_emit_the_length_prefix_as_its_own_write)")
         return
     body_calls = [i + 1 for i in length_calls[1:] if i + 1 < len(tee.calls)]
-    plan = [(i, "raise") for i in length_calls[1:]] + [(i, "raise") for i in body_calls] + [(i, "short") for i in body_calls]
+    # Only the clean failure of a body write is explored in continue mode: the next bytes the reader then takes for the
+    # body start with the following frame's 4-byte length prefix, which can never decode to a record.  A SHORT body write
+    # followed by more frames is left to crash semantics: the format has no checksums, so a partial body completed by the
+    # bytes of later frames can happen to decode (observed with equally shaped frames) - no reader can tell.
+    plan = [(i, "raise") for i in length_calls[1:]] + [(i, "raise") for i in body_calls]
     for idx, fmode in plan:  # the header frame is written by the first write; failing it is the crash case
         misframed = idx in body_calls
         ff = faultio.FaultFile(idx, fmode)
@@ -444,7 +448,14 @@ _orig_build = build
 def build(case, ctx):  # noqa: F811 - wrap: prime the known-value substitution from a clean full read
     from flow.record import RecordStreamReader
 
-    records, written, data, tee = _orig_build(case, ctx)
+    # every cut of a stream is executed: keep streams small (the generator occasionally draws 64 KiB values); a larger
+    # stream is replaced by the next one of the same recipe, deterministically
+    MAX_STREAM = 8000
+    for attempt in range(25):
+        records, written, data, tee = _orig_build(dict(case, s=case["s"] + 7919 * attempt), ctx)
+        if len(data) <= MAX_STREAM:
+            break
+        ctx.event("oversized_streams_replaced")
     clean = [observe.normalise(observe.obs(r)) for r in RecordStreamReader(io.BytesIO(data))]
     if len(clean) == len(written):
         _prime_expect(written, clean)
